@@ -67,10 +67,13 @@ class _IntervalComputer(Generic[MODEL], MatcherStdTypeVisitor[MODEL, IntInterval
                 operator: Callable[[IntIntervalWInversion, IntIntervalWInversion], IntIntervalWInversion],
                 operands: Sequence[MatcherWTrace],
                 ) -> IntIntervalWInversion:
-        unadapted = functools.reduce(operator, [operand.accept(self) for operand in operands])
+        operand_intervals = [operand.accept(self) for operand in operands]
+        unadapted = functools.reduce(operator, operand_intervals)
+        inversion = functools.reduce(_DUAL_OF[operator],
+                                     [operand_interval.inversion for operand_interval in operand_intervals])
         return intervals.WithCustomInversion(
             unadapted,
-            self._interval_adaption(unadapted.inversion),
+            self._interval_adaption(inversion),
         )
 
 
@@ -113,6 +116,11 @@ class _NegationEvaluator(Generic[MODEL], MatcherStdTypeVisitor[MODEL, IntInterva
                 self._interval_of_unknown_class,
             )
 
+
+_DUAL_OF = {
+    combinations.union: combinations.intersection,
+    combinations.intersection: combinations.union,
+}
 
 _CONSTANTS = {
     False: intervals.Empty(),
